@@ -190,6 +190,7 @@ def main():
     assumptions = set()
     samples = []
     solver_time = 0.0
+    backends = {}
     if not a.no_pyvc:
         pv = run_pyvc(prop, a.tier, a.jobs)
         for r in pv["results"]:
@@ -207,6 +208,9 @@ def main():
                           "obligations": n, "discharged": d, "sat": len(s_), "undecided": u,
                           "outside_subset": ["%s:%s %s" % (x[0].split(".")[-1], x[1], x[2]) for x in r["unsupported"]][:12],
                           "mode": r.get("mode"), "time_s": r["time_s"], "notes": r.get("notes", [])})
+            for o in r["obligations"]:
+                if o["status"] == "unsat":
+                    backends[o.get("solver") or "z3"] = backends.get(o.get("solver") or "z3", 0) + 1
             for o in s_:
                 failed_obls.append(o)
             for x in r["assumptions"]:
@@ -279,6 +283,9 @@ def main():
                          "ruamel.yaml 0.17.21 (assumed contracts listed under assumptions)"],
         "functions_under_contract": funcs,
         "solver_time_s": round(solver_time, 2),
+        # which back end closed each discharged obligation: z3 / cvc5 (took a z3 unknown) / syntactic (K6 structure) /
+        # concrete (decided by evaluation) / allowed (a raise the contract permits) / caught (handled by the code)
+        "discharged_by_backend": backends,
         "explanation": ("Deductive core: %d verification conditions generated from the current source of %d function(s), %d discharged, %d refuted, %d undecided. "
                         % (tot, len(funcs), dis, sat, und)) +
                        ("Bounded stand-in (never counted as proved): %d evaluations of the real functions, %d distinct non-trivial cases, %d witness classes."
